@@ -1,9 +1,11 @@
 package props
 
 import (
+	"context"
 	"encoding/json"
 	"fmt"
 	"github.com/ipfs/go-graphsync/dedupkey"
+	"os"
 
 	"github.com/ipfs/go-cid"
 	"github.com/ipfs/go-graphsync"
@@ -20,15 +22,137 @@ import (
 // C24: requestor avoids unnecessary traffic (DESIGN 6 C24).
 
 type c24Case struct {
-	Shape harness.Shape `json:"shape"`
-	Sel   string        `json:"selector"`
-	Local []int         `json:"requestor_has"`       // block indexes in the requestor's store
-	UserK int64         `json:"user_skip"`           // user-supplied do-not-send-first-blocks (0: none)
-	UserS []int         `json:"user_ignore"`         // user-supplied do-not-send-cids (block indexes)
-	Key   bool          `json:"dedup_key,omitempty"` // the request also carries a dedup-by-key extension (as a requestor using a persistence option sends)
+	Shape   harness.Shape `json:"shape"`
+	Sel     string        `json:"selector"`
+	Local   []int         `json:"requestor_has"`                       // block indexes in the requestor's store
+	UserK   int64         `json:"user_skip"`                           // user-supplied do-not-send-first-blocks (0: none)
+	UserS   []int         `json:"user_ignore"`                         // user-supplied do-not-send-cids (block indexes)
+	Key     bool          `json:"dedup_key,omitempty"`                 // the request also carries a dedup-by-key extension (as a requestor using a persistence option sends)
+	PauseAt int           `json:"requestor_pauses_at_block,omitempty"` // the requestor's block hook pauses at this block; after quiescence the request is resumed (re-issued with a skip count)
+}
+
+// c24Resume: the responder holds everything, the requestor nothing; the request is paused by the requestor at
+// block k and resumed once everything is quiet. The re-issued request asks to skip the blocks already loaded:
+// none of them may be transmitted again.
+func c24Resume(cs c24Case) (sig, what, class string) {
+	d := harness.Build(cs.Shape, "")
+	sel := findSel(cs.Sel)
+	split := make(harness.Split, len(cs.Shape.Blocks))
+	for i := range split {
+		split[i] = 2
+	}
+	_, rsRef := d.Stores(split)
+	ref := harness.Reference(d.Root, sel.Node, harness.RefOpts{Remote: rsRef})
+	class = fmt.Sprintf("resume pauseAt=%d", cs.PauseAt)
+	var wire []*harness.Wire
+	var panicked string
+	paused := false
+	s := vsched.Run(vsched.Config{Fast: true}, func() {
+		f := harness.NewFixture(true) // gated: messages are delivered one at a time, each followed by quiescence
+		qs, rs := d.Stores(split)
+		q := f.AddNode(peer.ID("Q"), qs)
+		r := f.AddNode(peer.ID("R"), rs)
+		n := 0
+		q.GS.RegisterIncomingBlockHook(func(p peer.ID, rd graphsync.ResponseData, b graphsync.BlockData, ha graphsync.IncomingBlockHookActions) {
+			n++
+			if n == cs.PauseAt && !paused {
+				paused = true
+				ha.PauseRequest()
+			}
+		})
+		id := harness.MkID(1)
+		q.Request(f, r.ID, d.Root, sel.Node, id)
+		vsched.Quiesce()
+		harness.RunEvents(f.Deliveries(q.ID, r.ID), 400)
+		if paused {
+			// everything of the cancelled response has been delivered (and refused): nothing is in flight
+			_ = q.GS.Unpause(context.Background(), id)
+			vsched.Quiesce()
+			harness.RunEvents(f.Deliveries(q.ID, r.ID), 400)
+		}
+		wire = f.Net.Wire
+		f.Cancel()
+	})
+	if s.Panic != nil {
+		panicked = fmt.Sprint(s.Panic)
+	}
+	detail := fmt.Sprintf("shape %s selector %s, requestor pauses at block %d and resumes: ", cs.Shape, cs.Sel, cs.PauseAt)
+	if panicked != "" {
+		return "panic", detail + panicked, class
+	}
+	if !paused {
+		return "", "", class
+	}
+	// the second New request and its skip count
+	news, skip, after := 0, int64(-1), -1
+	for i, w := range wire {
+		if w.From != peer.ID("Q") {
+			continue
+		}
+		for _, rq := range w.Msg.Requests() {
+			if rq.Type() == graphsync.RequestTypeNew {
+				news++
+				if news == 2 {
+					after = i
+					skip = 0
+					if data, ok := rq.Extension(graphsync.ExtensionsDoNotSendFirstBlocks); ok {
+						skip, _ = donotsendfirstblocks.DecodeDoNotSendFirstBlocks(data)
+					}
+				}
+			}
+		}
+	}
+	if os.Getenv("VERIF_VERBOSE") != "" {
+		for i, w := range wire {
+			var rq []string
+			for _, r := range w.Msg.Requests() {
+				rq = append(rq, string(r.Type()))
+			}
+			fmt.Printf("wire %d from %s requests %v responses %d blocks %d\n", i, w.From, rq, len(w.Msg.Responses()), len(w.Msg.Blocks()))
+		}
+		fmt.Println("news", news, "skip", skip, "after", after, "paused", paused)
+	}
+	if after < 0 {
+		return "", "", class // the request had finished before the pause took effect
+	}
+	// after the resume the traversal goes on locally through links whose block was stored before the pause
+	// (duplicates) and goes remote at the first link it cannot load: that many leading links are skipped
+	have := map[string]bool{}
+	for i := 0; i < cs.PauseAt && i < len(ref.Loads); i++ {
+		have[ref.Loads[i].Link.Binary()] = true
+	}
+	want := cs.PauseAt
+	for want < len(ref.Loads) && have[ref.Loads[want].Link.Binary()] {
+		want++
+	}
+	if skip != int64(want) {
+		return "wrong-skip-count/after-resume", fmt.Sprintf("%sthe re-issued request asks to skip %d blocks, %d links were loaded locally before it went remote again", detail, skip, want), class
+	}
+	// blocks all of whose occurrences lie inside the first `skip` links of the traversal
+	first := map[string]int{}
+	for i, l := range ref.Loads {
+		if _, ok := first[l.Link.Binary()]; !ok {
+			first[l.Link.Binary()] = i
+		}
+	}
+	for _, w := range wire[after:] {
+		if w.From != peer.ID("R") {
+			continue
+		}
+		for _, b := range w.Msg.Blocks() {
+			k := cidlink.Link{Cid: b.Cid()}.Binary()
+			if i, ok := first[k]; ok && int64(i) < skip {
+				return "skipped-block-transmitted/after-resume", fmt.Sprintf("%sblock %s (traversal position %d) was transmitted again although the re-issued request asked to skip the first %d blocks", detail, d.Name(cidlink.Link{Cid: b.Cid()}), i, skip), class
+			}
+		}
+	}
+	return "", "", class
 }
 
 func c24Run(cs c24Case) (sig, what, class string) {
+	if cs.PauseAt > 0 {
+		return c24Resume(cs)
+	}
 	d := harness.Build(cs.Shape, "")
 	sel := findSel(cs.Sel)
 	split := make(harness.Split, len(cs.Shape.Blocks))
@@ -181,6 +305,11 @@ func runC24(c *core.Ctx) {
 					v.Key = true
 					variants = append(variants, v)
 				}
+				if mask == 0 {
+					for k := 1; k < n; k++ {
+						variants = append(variants, c24Case{Shape: sh, Sel: sn, PauseAt: k})
+					}
+				}
 				for _, cs := range variants {
 					idx++
 					if !c.Mine(idx) {
@@ -207,7 +336,7 @@ func runC24(c *core.Ctx) {
 
 func init() {
 	core.Register(&core.Prop{ID: "C24", Level: "exploration",
-		Rule:        "shape catalogue x selectors x every subset of blocks in the requestor's store (responder holds everything) x user-supplied {none, do-not-send-first-blocks k=1..N, do-not-send-cids {i}, both} (each of the latter with and without a dedup-by-key extension); one real two-node exchange each with a wire monitor; a class is a distinct (local-complete, local prefix length, user k, |user S|) combination",
+		Rule:        "shape catalogue x selectors x every subset of blocks in the requestor's store (responder holds everything) x user-supplied {none, do-not-send-first-blocks k=1..N, do-not-send-cids {i}, both} (each of the latter with and without a dedup-by-key extension); plus, with an empty requestor store, the request paused by the requestor at block k and resumed at quiescence (the re-issued request's skip count and what is transmitted after it); one real two-node exchange each with a wire monitor; a class is a distinct (local-complete, local prefix length, user k, |user S|) combination",
 		Assumptions: []string{"reference traversal gives the number of blocks loaded locally before the first miss and the responder's traversal positions", "default schedule"},
 		Run:         runC24, QuickBudget: 300, ThoroughBudget: 2400,
 		Replay: func(raw json.RawMessage) string {
